@@ -7,7 +7,7 @@ import vlib
 def classify(e, mon):
     d = {"monitor": mon, "op": e["op"], "ok": e["ok"]}
     if e["op"] == "claim":
-        d.update({"gt": e["gt"], "rem": e["pre"]["rem"], "last": e["post"]["rem"] == 0})
+        d.update({"gt": e["gt"], "rem": e["pre"]["rem"], "last": e["gt"] == e["pre"]["rem"], "errclass": e["errclass"]})
     return d
 
 
@@ -23,6 +23,7 @@ def run(ctx):
             ("random", ["random", "--seed", ctx.seed, "--n", 400 if q else 6000]),
             ("factors", ["factors", "--seed", ctx.seed, "--n", 1500 if q else 8000])]
     stats = {"claims_paid": 0, "rounded": 0, "last_claims": 0, "rejected_claims": 0, "deposits": 0,
+             "payout_equals_token_balance": 0, "histories_all_claimed": 0,
              "factor_rejected_over_100": 0, "factor_accepted_100": 0}
     seen = set()
     total = 0
@@ -38,6 +39,8 @@ def run(ctx):
                     stats["claims_paid"] += 1
                     stats["rounded"] += any((b * e["gt"]) % e["pre"]["rem"] for b in e["pre"]["bal"])
                     stats["last_claims"] += e["post"]["rem"] == 0
+                    stats["payout_equals_token_balance"] += any(b > 0 and p == b for b, p in zip(e["pre"]["bal"], e["paid"]))
+                stats["histories_all_claimed"] += e["alldone"] and e["init"]["rem"] > 0
                 stats["rejected_claims"] += not e["ok"]
                 seen.add(("claim", e["gt"], tuple(e["pre"]["bal"]), e["pre"]["rem"]))
             elif e["op"] == "deposit":
